@@ -725,6 +725,16 @@ def run(ctx):
         jobs = [(tree, i, vlib.subseed(ctx.seed, "c11", i), per, ctx.tier, reg[i::nw]) for i in range(nw)]
         ctx.stats.merge(vlib.run_workers(worker, jobs))
     ctx.notes["conf_break"] = tree.conf("conf-break")[:1]
+    if (not only or "lspawn" in only) and not ctx.stats.violations:
+        # the documented compile-time delimiter (conf-break) set to '+': user+ext addresses; the dash handed to qmail-local for a password-file
+        # user is still a hyphen (qmail-getpw.8), assignments and their wildcards follow the table (added after seeded change C11-M)
+        t2 = break_tree()
+        if t2 is not None:
+            jobs = [(t2, "b%d" % i, vlib.subseed(ctx.seed, "c11-break", i), ctx.n(60, 600), ctx.tier, []) for i in range(vlib.NCPU)]
+            st2 = vlib.run_workers(worker, jobs)
+            st2.violations = [("build with conf-break '+': " + m, dict(sc_, conf_break="+") if isinstance(sc_, dict) else sc_) for m, sc_ in st2.violations]
+            ctx.stats.merge(st2)
+            ctx.stats.cls("conf_break_plus_build_cases", st2.evaluations)
     # generator health: every class named in the quantifier must have been exercised
     if not only:
         need = ["intact:exec_exact", "intact:exec_wild", "intact:exec_pwuser", "intact:exec_alias", "intact:root_refused", "intact:deferred",
@@ -734,11 +744,25 @@ def run(ctx):
             raise vlib.HarnessError("GENERATOR-STARVED: classes never produced: %r" % missing)
 
 
+def break_tree():
+    """second build of the working tree with conf-break = '+'"""
+    t2 = vlib.Tree(tag="-break")
+    p_ = t2.path("conf-break")
+    lines = open(p_).read().split("\n")
+    if lines[0] == "+":
+        return None
+    open(p_, "w").write("\n".join(["+"] + lines[1:]))
+    t2.make("qmail-lspawn", "qmail-getpw", "qmail-newu")
+    return t2
+
+
 def replay(ctx, path):
     sandbox.ensure_shim()
     tree = vlib.Tree().make("qmail-lspawn", "qmail-getpw", "qmail-newu")
     sc = json.load(open(path))
     sc = sc.get("scenario", sc)
+    if isinstance(sc, dict) and sc.get("conf_break") == "+":
+        tree = break_tree()
     if isinstance(sc, dict) and sc.get("kind") == "cdb":
         return replay_cdb(ctx, tree, sc["case"])
     r = Runner(tree, "replay")
